@@ -253,7 +253,14 @@ func init() {
 		o.InstrPct, o.PredPct, o.FallbackPct = 100, 35, 35
 		g := genPart(c, "C18", c.pick(70, 800), c.pick(50, 600), o, 1, "ok,pred,fault,panic", c.pick(5, 10), false,
 			"at least one emitter event was recorded (1..3 WithEmitter options, each a stack of 1..3 recording emitters, nested via cff.EmitterStack; any subset of tasks instrumented; -auto-instrument for a third of the instrumented flows)")
-		both(c, nil, g)
+		parts := map[string]map[string]interface{}{}
+		if g != nil {
+			parts["G"] = g
+		}
+		if e := emitPart(c); e != nil {
+			parts["E"] = e
+		}
+		writeEvidence(c, mergeCov(parts), append([]string{"Engine E drives the emitter interfaces directly; which events generated code emits is Engine G's part"}, assumeG...))
 	}
 	checks["C19"] = func(c *ctx) {
 		s := schedC19(c)
